@@ -1315,6 +1315,11 @@ class Interp:
         elif isinstance(obj, SMap):
             f = SMap.fresh(obj.kkind, obj.vkind, str(label))
             obj.dom, obj.val = f.dom, f.val
+        elif isinstance(obj, SRec):
+            # a record: every mutable container field gets fresh contents (scalar fields are never rebound by a callee's contract)
+            for k, x in object.__getattribute__(obj, "_fields").items():
+                if isinstance(x, (SList, SMap)):
+                    self.havoc_inplace(x, f"{label}.{k}")
         else:
             raise OutOfReach(f"cannot havoc {type(obj).__name__} in place")
 
